@@ -36,6 +36,10 @@ def all_id_values(x, acc):
     return acc
 
 
+ODD_NAMES = ["src%d-%d.feature", "login[%d]-%d.feature", "a*b%d-%d.feature", "sp ace %d %d.feature", "\u00fcn\u00ef%d-%d.feature", "q?%d-%d.feature", "{%d,%d}.feature", "%d-%d", "_-%d-%d.feature",
+             "x%d'y\"%d.feature"]
+
+
 def expected_for(uri, text, opts):
     """envelopes of one source for a fresh id counter - from the reference parser and reference compiler only"""
     ref = ref_parse(text)
@@ -64,7 +68,7 @@ def check_stream(case, stats):
             if case.get("same_path_for_equal_sources") and s in written:
                 paths.append(written[s])
                 continue
-            p = "src%d-%d.feature" % (os.getpid(), i)
+            p = ODD_NAMES[(i + len(s)) % len(ODD_NAMES)] % (os.getpid(), i)
             with open(p, "w", encoding="utf8", newline="") as f:
                 f.write(s)
             paths.append(p)
